@@ -17,6 +17,7 @@ import (
 	"math/rand"
 	"os"
 	"reflect"
+	"strconv"
 	"strings"
 
 	"github.com/notaryproject/notation-core-go/signature"
@@ -64,15 +65,38 @@ type Input struct {
 	Gen       string `json:"gen"`     // fixed | stream | failing: the descriptor generator handed to SignBlob
 	Blob      string `json:"blob"`    // the blob a stream generator digests
 	Honest    bool   `json:"honest"`  // the plugin signs the request's payload bytes verbatim
+	Wrap      string `json:"wrap"`    // asIs | untagged | doubleTag | trailingByte | indefinite | jsonWs: framing of the envelope bytes
+	History   []Step `json:"history"` // earlier calls on the same signer value
 	DupKeys   bool   `json:"dupKeys"`
 	// the requested descriptor carries an empty, non-nil annotation map (only when it has no annotations)
 	EmptyAnnMap bool `json:"emptyAnnMap"`
 }
 
 type Obs struct {
-	Outcome   string `json:"outcome"` // sig | err | panic
-	PayloadOk bool   `json:"payloadOk"`
-	LeafOk    bool   `json:"leafOk"`
+	Outcome   string   `json:"outcome"` // sig | err | panic
+	PayloadOk bool     `json:"payloadOk"`
+	LeafOk    bool     `json:"leafOk"`
+	Earlier   []string `json:"earlier"` // outcomes of the earlier calls on the same signer value
+}
+
+// Step is an earlier call on the same PluginSigner value: the main scenario with these answers instead.
+type Step struct {
+	Api       string `json:"api"`
+	Cap       string `json:"cap"`
+	DkKeyIdOk bool   `json:"dkKeyIdOk"`
+	DkKeySpec string `json:"dkKeySpec"`
+	GsKeyIdOk bool   `json:"gsKeyIdOk"`
+	Echo      string `json:"echo"`
+	SigMode   string `json:"sigMode"`
+}
+
+func (st Step) apply(in *Input) *Input {
+	e := *in
+	e.Cap = st.Cap
+	e.Api, e.DkKeyIdOk, e.DkKeySpec, e.GsKeyIdOk, e.Echo, e.SigMode = st.Api, st.DkKeyIdOk, st.DkKeySpec, st.GsKeyIdOk, st.Echo, st.SigMode
+	e.History = []Step{}
+	e.Gen = "fixed" // an earlier SignBlob call gets a generator that returns the requested descriptor
+	return &e
 }
 
 var keyNames = []string{"rsa2048", "rsa3072", "rsa4096", "ec256", "ec384", "ec521"}
@@ -94,9 +118,10 @@ const keyID = "the-requested-key"
 // scripted plugin
 
 type plug struct {
-	in *Input
-	w  *world
-	r  *rand.Rand
+	in   *Input   // the scenario of the call being answered: selected by the call's PluginConfig (use)
+	effs []*Input // the scenarios of all calls on this signer value, by call number
+	w    *world
+	r    *rand.Rand
 	// what the plugin produced
 	envelope   []byte
 	payload    []byte
@@ -105,7 +130,15 @@ type plug struct {
 	genEnvReqs int
 }
 
+// use selects the scenario by the plugin configuration of the CALL (as a plugin selects a vault by it).
+func (p *plug) use(cfg map[string]string) {
+	if n, err := strconv.Atoi(cfg["call"]); err == nil && n >= 0 && n < len(p.effs) {
+		p.in = p.effs[n]
+	}
+}
+
 func (p *plug) GetMetadata(ctx context.Context, req *pluginfw.GetMetadataRequest) (*pluginfw.GetMetadataResponse, error) {
+	p.use(req.PluginConfig)
 	if p.in.PluginErr == "metadata" {
 		return nil, errors.New("scripted: get-plugin-metadata fails")
 	}
@@ -125,6 +158,7 @@ func (p *plug) GetMetadata(ctx context.Context, req *pluginfw.GetMetadataRequest
 }
 
 func (p *plug) DescribeKey(ctx context.Context, req *pluginfw.DescribeKeyRequest) (*pluginfw.DescribeKeyResponse, error) {
+	p.use(req.PluginConfig)
 	if p.in.PluginErr == "describeKey" {
 		return nil, errors.New("scripted: describe-key fails")
 	}
@@ -167,6 +201,7 @@ func (p *plug) sign(data []byte) []byte {
 }
 
 func (p *plug) GenerateSignature(ctx context.Context, req *pluginfw.GenerateSignatureRequest) (*pluginfw.GenerateSignatureResponse, error) {
+	p.use(req.PluginConfig)
 	p.genSigReqs++
 	if p.in.PluginErr == "generate" {
 		return nil, errors.New("scripted: generate-signature fails")
@@ -184,6 +219,7 @@ func (p *plug) GenerateSignature(ctx context.Context, req *pluginfw.GenerateSign
 }
 
 func (p *plug) GenerateEnvelope(ctx context.Context, req *pluginfw.GenerateEnvelopeRequest) (*pluginfw.GenerateEnvelopeResponse, error) {
+	p.use(req.PluginConfig)
 	p.genEnvReqs++
 	if p.in.PluginErr == "generate" {
 		return nil, errors.New("scripted: generate-envelope fails")
@@ -227,6 +263,7 @@ func (p *plug) GenerateEnvelope(ctx context.Context, req *pluginfw.GenerateEnvel
 		fmt.Fprintf(os.Stderr, "c18 harness: scripted plugin cannot build its envelope: %v\n", err)
 		os.Exit(3)
 	}
+	env = wrapBytes(p.in.Wrap, p.in.EnvFmt, env) // framing first: garbage stays garbage whatever the framing
 	if p.in.Garbage {
 		switch p.r.Intn(4) {
 		case 0:
@@ -304,55 +341,101 @@ func normalise(in *Input) {
 
 func runCase(c *common.Ctx, w *world, in *Input) {
 	normalise(in)
+	if in.Wrap == "" {
+		in.Wrap = "asIs"
+	}
+	if in.History == nil {
+		in.History = []Step{}
+	}
 	in.DupKeys = hasDup(in.Payload)
 	p := &plug{in: in, w: w, r: rand.New(rand.NewSource(c.Rand.Int63()))}
+	for _, st := range in.History {
+		e := st.apply(in)
+		normalise(e)
+		p.effs = append(p.effs, e)
+	}
+	p.effs = append(p.effs, in)
 	desc := toOCI(in.Req, in.EmptyAnnMap)
-	opts := notation.SignerSignOptions{SignatureMediaType: mediaOf(in.Format)}
-	var sig []byte
-	var info *signature.SignerInfo
-	var err error
-	panicked := false
-	func() {
-		defer func() {
-			if r := recover(); r != nil {
-				panicked = true
+	// ONE signer value for all calls
+	var s *signer.PluginSigner
+	var asSigner notation.Signer
+	var e error
+	if len(in.History) == 0 && in.Api == "sign" && p.r.Intn(2) == 0 {
+		asSigner, e = signer.NewFromPlugin(p, keyID, nil)
+	} else {
+		s, e = signer.NewPluginSigner(p, keyID, map[string]string{"k": "v"})
+		asSigner = s
+	}
+	if e != nil {
+		fmt.Fprintln(os.Stderr, "c18 harness: NewPluginSigner:", e)
+		os.Exit(3)
+	}
+	obs := Obs{Outcome: "err", Earlier: []string{}}
+	for k, eff := range p.effs {
+		p.envelope, p.payload, p.leaf, p.genSigReqs, p.genEnvReqs = nil, nil, nil, 0, 0
+		p.in = eff
+		opts := notation.SignerSignOptions{SignatureMediaType: mediaOf(eff.Format), PluginConfig: map[string]string{"call": strconv.Itoa(k)}}
+		var sig []byte
+		var info *signature.SignerInfo
+		var err error
+		panicked := false
+		func() {
+			defer func() {
+				if r := recover(); r != nil {
+					panicked = true
+				}
+			}()
+			ctx := context.Background()
+			if eff.Api == "signBlob" {
+				sig, info, err = s.SignBlob(ctx, blobGenerator(eff, desc), opts)
+			} else {
+				sig, info, err = asSigner.Sign(ctx, desc, opts)
 			}
 		}()
-		ctx := context.Background()
-		if in.Api == "signBlob" {
-			s, e := signer.NewPluginSigner(p, keyID, map[string]string{"k": "v"})
-			if e != nil {
-				fmt.Fprintln(os.Stderr, "c18 harness: NewPluginSigner:", e)
-				os.Exit(3)
-			}
-			sig, info, err = s.SignBlob(ctx, blobGenerator(in, desc), opts)
-		} else {
-			var s notation.Signer
-			var e error
-			if p.r.Intn(2) == 0 {
-				s, e = signer.NewFromPlugin(p, keyID, nil)
-			} else {
-				s, e = signer.NewPluginSigner(p, keyID, nil)
-			}
-			if e != nil {
-				fmt.Fprintln(os.Stderr, "c18 harness: NewFromPlugin:", e)
-				os.Exit(3)
-			}
-			sig, info, err = s.Sign(ctx, desc, opts)
+		out := "err"
+		switch {
+		case panicked:
+			out = "panic"
+		case err == nil:
+			out = "sig"
 		}
-	}()
-	obs := Obs{Outcome: "err"}
-	switch {
-	case panicked:
-		obs.Outcome = "panic"
-	case err == nil:
-		obs.Outcome = "sig"
-		obs.PayloadOk, obs.LeafOk = inspect(in, p, desc, sig, info)
+		if k < len(p.effs)-1 {
+			obs.Earlier = append(obs.Earlier, out)
+			continue
+		}
+		obs.Outcome = out
+		if out == "sig" {
+			obs.PayloadOk, obs.LeafOk = inspect(in, p, desc, sig, info)
+		}
 	}
 	c.Count("outcome=" + obs.Outcome)
 	c.Count(fmt.Sprintf("path=%s/%s/%s %s", in.Cap, in.Api, in.Format, obs.Outcome))
 	c.Count("key=" + in.Key)
 	c.Emit(in, obs)
+}
+
+// wrapBytes frames the envelope bytes the plugin hands over.
+func wrapBytes(wrap, envFmt string, env []byte) []byte {
+	if len(env) == 0 {
+		return env
+	}
+	switch wrap {
+	case "untagged": // COSE: the bare COSE_Sign1 array without tag 18
+		return append([]byte(nil), env[1:]...)
+	case "doubleTag":
+		return append([]byte{env[0]}, env...)
+	case "trailingByte":
+		return append(append([]byte(nil), env...), 0x00)
+	case "indefinite":
+		if envFmt == "cose" && len(env) > 2 && env[0] == 0xd2 && env[1] == 0x84 {
+			out := append([]byte{0xd2, 0x9f}, env[2:]...) // indefinite-length array … break
+			return append(out, 0xff)
+		}
+		return append(append([]byte(nil), env...), []byte("\n{}")...)
+	case "jsonWs":
+		return append(append([]byte(" \n\t"), env...), []byte("\r\n ")...)
+	}
+	return env
 }
 
 // blobGenerator is the notation.BlobDescriptorGenerator of the scenario. "stream" behaves like the one
@@ -687,6 +770,71 @@ func Run(c *common.Ctx) error {
 			}
 		}
 	}
+	// 1e. framing of the envelope bytes: untagged / doubly tagged COSE, bytes after the message, indefinite-length
+	// array, blanks around (fine for JWS only) - cryptographically valid envelopes over the requested payload
+	for _, api := range apis {
+		for _, f := range formats {
+			for ki, k := range keyNames {
+				for wi, wr := range []string{"untagged", "doubleTag", "trailingByte", "indefinite", "jsonWs"} {
+					if !c.Thorough() && (ki+wi)%2 == 1 {
+						continue
+					}
+					in := base(r, api, "envelope", f, k)
+					in.Wrap = wr
+					in.Honest = wi%2 == 0
+					c.Count("gen=wrap:" + wr + "/" + f)
+					runCase(c, w, in)
+				}
+			}
+		}
+	}
+	// 1f. HISTORIES on one signer value: every pair (and some triples) of answers, each call with its own
+	// PluginConfig, which the scripted plugin selects its answers by; each call is judged on its own
+	stepKinds := []struct {
+		name string
+		f    func(st *Step, key string)
+	}{
+		{"benign", func(st *Step, key string) {}},
+		{"dkKeyId", func(st *Step, key string) { st.DkKeyIdOk = false }},
+		{"dkSpecUndecodable", func(st *Step, key string) { st.DkKeySpec = "EC-512" }},
+		{"dkSpecOther", func(st *Step, key string) { st.DkKeySpec = specOf[nextKey[key]] }},
+		{"gsKeyId", func(st *Step, key string) { st.GsKeyIdOk = false }},
+		{"echo", func(st *Step, key string) { st.Echo = "otherFormat" }},
+		{"sigFlipped", func(st *Step, key string) { st.SigMode = "flipped" }},
+		{"otherCapability", func(st *Step, key string) {
+			st.Cap = map[string]string{"raw": "envelope", "envelope": "raw", "both": "envelope"}[st.Cap]
+		}},
+	}
+	mkStep := func(api, cp, key string, kind int) Step {
+		st := Step{Api: api, Cap: cp, DkKeyIdOk: true, DkKeySpec: specOf[key], GsKeyIdOk: true, Echo: "requested", SigMode: "good"}
+		stepKinds[kind].f(&st, key)
+		return st
+	}
+	hn := 0
+	for _, f := range formats {
+		for _, pc := range [][2]string{{"raw", "sign"}, {"raw", "signBlob"}, {"envelope", "signBlob"}, {"envelope", "sign"}, {"both", "sign"}} {
+			for a := range stepKinds {
+				for b := range stepKinds {
+					key := pick(r, "ec256", "ec256", "ec384", "rsa2048")
+					in := base(r, pc[1], pc[0], f, key)
+					last := mkStep(pc[1], pc[0], key, b)
+					in.Cap = last.Cap
+					in.DkKeyIdOk, in.DkKeySpec, in.GsKeyIdOk, in.Echo, in.SigMode = last.DkKeyIdOk, last.DkKeySpec, last.GsKeyIdOk, last.Echo, last.SigMode
+					firstApi := pc[1]
+					if hn%3 == 0 {
+						firstApi = apis[hn%2]
+					}
+					in.History = []Step{mkStep(firstApi, pc[0], key, a)}
+					if hn%4 == 0 { // a triple
+						in.History = append(in.History, mkStep(apis[(hn/4)%2], pc[0], key, (a+b)%len(stepKinds)))
+					}
+					hn++
+					c.Count("gen=history:" + stepKinds[a].name + ">" + stepKinds[b].name)
+					runCase(c, w, in)
+				}
+			}
+		}
+	}
 	// 1d. payload types that are not the Notary payload type (the scripted plugin picks: other types, and near
 	// misses - parameters, blanks, another letter case)
 	for _, api := range apis {
@@ -974,7 +1122,7 @@ func Run(c *common.Ctx) error {
 		}
 	}
 	// 3. random combinations
-	total := 5000
+	total := 6500
 	if c.Thorough() {
 		total = 40000
 	}
@@ -987,6 +1135,16 @@ func Run(c *common.Ctx) error {
 		in := base(r, apis[r.Intn(2)], cp, formats[r.Intn(2)], k)
 		if r.Intn(3) == 0 {
 			useStream(r, in) // before any deviation is applied
+		}
+		if r.Intn(5) == 0 { // an earlier call on the same signer value
+			st := Step{Api: apis[r.Intn(2)], Cap: pick(r, in.Cap, in.Cap, "raw", "envelope"), DkKeyIdOk: r.Intn(3) > 0, DkKeySpec: specOf[in.Key], GsKeyIdOk: r.Intn(3) > 0, Echo: "requested", SigMode: "good"}
+			if r.Intn(4) == 0 {
+				st.DkKeySpec = specOf[keyNames[r.Intn(6)]]
+			}
+			in.History = []Step{st}
+		}
+		if r.Intn(12) == 0 {
+			in.Wrap = pick(r, "untagged", "doubleTag", "trailingByte", "indefinite", "jsonWs")
 		}
 		var tags []string
 		switch r.Intn(10) {
